@@ -260,8 +260,15 @@ func (r *Receiver) RunOnce(ctx context.Context, includingOwn bool) error {
 		}
 
 		if !includingOwn && inst == r.ownInstance {
-			// Own instance. We only want these during startup.
-			continue
+			// Own instance. We only want these during startup, unless the
+			// one we notified then was marked corrupt and an older snapshot
+			// got promoted: nothing else would wake up its downloader.
+			r.mu.Lock()
+			_, wasCorrupt := r.corruptSnapshots[lastNotified.FullName]
+			r.mu.Unlock()
+			if !wasCorrupt || !ni.Timestamp.Before(lastNotified.Timestamp) {
+				continue
+			}
 		}
 
 		age := now.Sub(ni.Timestamp)
